@@ -34,4 +34,4 @@ def jobs(tier, seed):
           Job("C16/decode-B", "contracts.C16:job_decode", dict(variant="B", seed=seed, timeout_s=t))]
     return js
 
-CLAIM = {'engine': 'E1-pyvc + E2-symtwin', 'level': 'proof', 'text': 'Deductive proof, unbounded in list length and values, of the serial<->multi-dimensional index maps of quara.utils.index_util: VCs generated from the AST of the real functions with loop invariants over ghost recursive definitions (row-major value, Horner value, suffix products); every VC discharged by z3; refutations replayed on the real function.', 'note': 'Trusted: CPython ast, z3, the E1 VC generator (cross-checked against CPython on random concrete inputs every run). Python ints are mathematical. Distribution-level clauses (constructor thresholds, marginal, conditional, joint = marginal x conditional, ensemble layout) are E2 contracts: all probability tensors per shape (all-inputs@config; shapes up to 3-4 variables).', 'technique': 'contract-based deductive verification (AST->VC, loop invariants, z3)'}
+CLAIM = {'engine': 'E1-pyvc + E2-symtwin', 'level': 'proof', 'text': 'Deductive proof, unbounded in list length and values, of the serial<->multi-dimensional index maps of quara.utils.index_util: VCs generated from the AST of the real functions with loop invariants over ghost recursive definitions (row-major value, Horner value, suffix products); every VC discharged by z3; refutations replayed on the real function.', 'note': 'Trusted: CPython ast, z3, the E1 VC generator (cross-checked against CPython on random concrete inputs every run). Python ints are mathematical. Distribution-level clauses (constructor thresholds, marginal, conditional, joint = marginal x conditional, ensemble layout, incl. the composite POVM built by POVM o measurement process) are E2 contracts: all probability tensors per shape (all-inputs@config; shapes up to 3-4 variables).', 'technique': 'contract-based deductive verification (AST->VC, loop invariants, z3)'}
